@@ -316,7 +316,8 @@ pub fn run_frontend(
 
 /// Independent statement of the ordering contract (C06): which calls are
 /// accepted, with which error payload, and the accepted map.
-pub fn contract(calls: &[Call], stop: bool) -> (Vec<String>, Kv, bool) {
+pub fn contract(calls: &[Call], stop: bool) -> (Vec<String>, Kv, bool, bool) {
+    let mut ambiguous = false;
     let mut last: Option<Vec<u8>> = None;
     let mut acc: BTreeMap<Vec<u8>, u64> = BTreeMap::new();
     let mut res = vec![];
@@ -330,6 +331,12 @@ pub fn contract(calls: &[Call], stop: bool) -> (Vec<String>, Kv, bool) {
             Some(l) if dupe && k == l => format!("dup:{}", hex(k)),
             Some(l) if k < l => format!("ooo:{}:{}", hex(l), hex(k)),
             _ => {
+                // `add` repeating a key that was `insert`ed with a value: the
+                // properties speak of map builders and set builders, not of
+                // this mixture on a raw builder; its content is not judged
+                if !dupe && last.as_ref() == Some(k) && acc.get(k).map(|x| *x != 0).unwrap_or(false) {
+                    ambiguous = true;
+                }
                 last = Some(k.clone());
                 acc.entry(k.clone()).or_insert(v);
                 "ok".to_string()
@@ -348,7 +355,7 @@ pub fn contract(calls: &[Call], stop: bool) -> (Vec<String>, Kv, bool) {
         let one = if stopped { last_r } else { "ok".to_string() };
         res = vec![one];
     }
-    (res, acc.into_iter().collect(), stopped)
+    (res, acc.into_iter().collect(), stopped, ambiguous)
 }
 
 pub struct Runner {
@@ -444,12 +451,19 @@ impl Runner {
     fn open(&mut self, bytes: Vec<u8>) -> String {
         match raw::Fst::new(bytes) {
             Ok(f) => {
+                // the root address is read from the footer, not through
+                // `root()` (which decodes a node and may panic on garbage)
+                let b = f.as_bytes();
+                let v = version_of(b);
+                let end = if v >= 3 { b.len() - 4 } else { b.len() };
+                let mut ra = [0u8; 8];
+                ra.copy_from_slice(&b[end - 8..end]);
                 let s = format!(
                     "ok v={} ty={} len={} root={}",
-                    version_of(f.as_bytes()),
+                    v,
                     f.fst_type(),
                     f.len(),
-                    f.root().addr()
+                    u64::from_le_bytes(ra)
                 );
                 self.cur = Some(f);
                 s
@@ -511,6 +525,9 @@ impl Runner {
             "spec" => crate::misc::cmd_spec(self, &t),
             "merge" => crate::misc::cmd_merge(self, &t),
             "corrupt" => self.cmd_corrupt(&t),
+            "hdr" => self.cmd_hdr(&t),
+            "open" => self.cmd_open(&t),
+            "foot" => crate::extra::cmd_foot(self, &t),
             "stats" => crate::extra::cmd_stats(self, &t),
             _ => "bad-op".into(),
         }
@@ -524,7 +541,7 @@ impl Runner {
         let stop = t[4] == "stop";
         let calls = parse_calls(t.get(5).copied().unwrap_or(""));
         let out = run_frontend(fe, ty, geom, &calls);
-        let (want_res, accepted, stopped) = contract(&calls, stop);
+        let (want_res, accepted, stopped, ambiguous) = contract(&calls, stop);
         let res_s = out.results.join(",");
         let want_s = want_res.join(",");
         self.check(res_s == want_s, || {
@@ -552,13 +569,13 @@ impl Runner {
                     };
                     let len = f.len();
                     let is_empty = f.is_empty();
-                    let okc = got == accepted;
+                    let okc = got == accepted || ambiguous;
                     let acc_s = show_kvs(&accepted);
                     self.check(okc, || format!("C01 stream differs from accepted map: fe={} got {} want {}", fe, show_kvs(&got), acc_s));
                     self.check(keys.len() == got.len(), || "C01 key stream length".into());
                     self.check(len == accepted.len(), || format!("C01 len() = {} but {} distinct keys", len, accepted.len()));
                     self.check(is_empty == accepted.is_empty(), || "C01 is_empty()".into());
-                    self.expect = Some(accepted);
+                    self.expect = if ambiguous { None } else { Some(accepted) };
                 } else {
                     self.fail(format!("C01 built bytes do not open: {}", o));
                 }
@@ -582,6 +599,60 @@ impl Runner {
                 got,
             })) => format!("verify mismatch {} {}", expected, got),
             Err(e) => format!("verify other {:?}", e),
+        }
+    }
+
+    fn cmd_hdr(&mut self, t: &[&str]) -> String {
+        // version / length gate (C10)
+        let bytes = unhex(t[1]);
+        let n = bytes.len();
+        let version = if n >= 8 { Some(version_of(&bytes)) } else { None };
+        self.expect = None;
+        let o = self.open(bytes);
+        let l = line_of(t);
+        match version {
+            None => self.check(o.starts_with("err format"), || format!("C10 {} bytes: {} (want Format): {}", n, o, l)),
+            Some(v) if v == 0 || v > 3 => {
+                if n >= 36 {
+                    self.check(o.starts_with("err version"), || format!("C10 version {}: {} (want Version): {}", v, o, l));
+                } else {
+                    self.check(o.starts_with("err"), || format!("C10 version {} short: {}: {}", v, o, l));
+                }
+            }
+            Some(v) => {
+                let min = if v <= 2 { 32 } else { 36 };
+                if n < min {
+                    self.check(o.starts_with("err format"), || format!("C10 v{} with {} bytes: {} (want Format): {}", v, n, o, l));
+                }
+            }
+        }
+        format!("load {}", o)
+    }
+
+    fn cmd_open(&mut self, t: &[&str]) -> String {
+        // open, then every metadata accessor and verify(): total (C20)
+        let bytes = unhex(t[1]);
+        let n = bytes.len();
+        match raw::Fst::new(bytes) {
+            Ok(f) => {
+                let _ = (f.len(), f.is_empty(), f.fst_type(), f.size(), f.as_bytes().len());
+                let m = fst::Map::new(f.as_bytes()).map(|m| m.len());
+                let s2 = fst::Set::new(f.as_bytes()).map(|m| m.len());
+                self.check(m.is_ok() && s2.is_ok(), || "C20 Map::new/Set::new disagree with Fst::new".to_string());
+                self.check(f.size() == n, || "C20 size()".to_string());
+                let v = match f.verify() {
+                    Ok(()) => "verify ok".to_string(),
+                    Err(fst::Error::Fst(raw::Error::ChecksumMissing)) => "verify missing".to_string(),
+                    Err(fst::Error::Fst(raw::Error::ChecksumMismatch { expected, got })) => {
+                        format!("verify mismatch {} {}", expected, got)
+                    }
+                    Err(e) => format!("verify other {:?}", e),
+                };
+                format!("open ok v={} ty={} len={} | {}", version_of(f.as_bytes()), f.fst_type(), f.len(), v)
+            }
+            Err(fst::Error::Fst(raw::Error::Format { size })) => format!("open err format {}", size),
+            Err(fst::Error::Fst(raw::Error::Version { got, .. })) => format!("open err version {}", got),
+            Err(e) => format!("open err other {:?}", e),
         }
     }
 
@@ -795,7 +866,8 @@ impl Runner {
         let want = mask(crc32c_bitwise(&all));
         // observed without hooks: verify() on a frame whose payload is `all`
         let got_pub = crate::misc::crc_via_verify(&all);
-        self.check(got_pub == want, || format!("C08 masked crc of {} bytes = {} want {}", all.len(), got_pub, want));
+        let want_pub = mask(crc32c_bitwise(&crate::misc::crc_frame(&all).1));
+        self.check(got_pub == want_pub, || format!("C08 verify() computes {} over a frame with {} payload bytes, bitwise CRC-32C gives {}", got_pub, all.len(), want_pub));
         #[cfg(feature = "hooks")]
         {
             let refs: Vec<&[u8]> = chunks.iter().map(|c| &c[..]).collect();
